@@ -185,7 +185,10 @@ def run(ctx):
                         for T in ([1, 3] if iface in ("concurrent", "rust", "async", "tf") else [1]):
                             plan.append((dmg, pos, iface, shuffle, T))
         if not ctx.thorough:
-            plan = [p for k, p in enumerate(plan) if (k * 7 + fi) % 5 == 0 or (p[2] in ("concurrent", "rust") and p[1] == nshards // 2 and p[3] == 4 and p[4] == 3)]
+            # a sample, plus directed passes that are always there: every interface x {deleted, garbage} at the middle shard x
+            # shuffle off/on at the larger parallelism (a sampling stride once dropped tf/shuffled/deleted from the quick tier)
+            plan = [p for k, p in enumerate(plan) if (k * 7 + fi) % 5 == 0
+                    or (p[0] in ("deleted", "garbage") and p[1] == nshards // 2 and p[4] == (3 if p[2] in ("concurrent", "rust", "async", "tf") else 1))]
         by_damage = collections.defaultdict(list)
         for p in plan: by_damage[(p[0], p[1])].append(p)
         groups = [{"damage": d, "pos": pos, "passes": [{"iface": i, "shuffle": sh, "T": T} for (_, _, i, sh, T) in ps]} for (d, pos), ps in by_damage.items()]
